@@ -270,10 +270,7 @@ def _enum_members(prog):
 
 
 def _else_delegates(prog, fn, chain):
-  cur = chain.node
-  while len(cur.orelse) == 1 and isinstance(cur.orelse[0], ast.If):
-    cur = cur.orelse[0]
-  for st in cur.orelse:
+  for st in chain.else_body:
     for c in ast.walk(st):
       if isinstance(c, ast.Call):
         ext = prog.ext_name(fn.module, c.func) or ''
@@ -326,6 +323,12 @@ def _v2(prog, res):
           raise AnalysisError('%s: enum dispatch on %s with unknown members '
                               '%s' % (loc, ch.var, handled))
         rest = universe - strs
+        if ch.else_kind == 'body' and strs == {'<NONE>'} and \
+            _n_branches(ch) == 1 and not ch.node.orelse:
+          # `if x == NONE: return ...` followed by the constrained case: the
+          # binary split none / some constraint, not a dispatch
+          n -= 1
+          continue
         if ch.else_kind == 'body':
           res.check(len(rest) <= 1, 'V2', key, loc,
                     'enum dispatch handles %s, else covers %s' % (
@@ -372,12 +375,7 @@ def _v2(prog, res):
 
 
 def _n_branches(ch):
-  k = 1
-  cur = ch.node
-  while len(cur.orelse) == 1 and isinstance(cur.orelse[0], ast.If):
-    cur = cur.orelse[0]
-    k += 1
-  return k
+  return len(ch.arms)
 
 
 def _rest_rejected(fn, chain, rest):
